@@ -14,6 +14,7 @@ import (
 	"github.com/datastax/go-cassandra-native-protocol/message"
 	"github.com/datastax/go-cassandra-native-protocol/primitive"
 
+	"verif/fakecass"
 	"verif/model"
 	"verif/mon"
 	"verif/px"
@@ -233,7 +234,7 @@ func runC05(c *Ctx) {
 	r.Assume("the retry count is the request's global number of policy-driven retries ('once' = retryCount == 0); fail-over after connection loss does not consume a retry")
 	r.Assume("plan = hosts sorted by address, rotated by an unknown but fixed start (read off the first attempt)")
 	r.Assume("PREPARE requests are treated as idempotent (preparing has no side effect)")
-	r.Require("sequences_run", "decision_calls", "send_gate_cases", "same_host_retry_host_lost_cases")
+	r.Require("sequences_run", "decision_calls", "send_gate_cases", "same_host_retry_host_lost_cases", "partial_pool_cases")
 
 	// (1) decision functions, exhaustive grid (every shard contributes a slice)
 	decisionFunctions(c)
@@ -352,6 +353,11 @@ func runC05(c *Ctx) {
 	for i := 0; i < c.Pick(6, 60); i++ {
 		if c.Mine(i+3) || c.Replay != nil {
 			sameHostRetryHostLost(c, i, i%2 == 0, 1+i%3)
+		}
+	}
+	for i := 0; i < c.Pick(8, 48); i++ {
+		if c.Mine(i+1) || c.Replay != nil {
+			partialPool(c, i, 2+i%2)
 		}
 	}
 }
@@ -708,4 +714,81 @@ func requestGoroutines() string {
 		keep = keep[:3]
 	}
 	return strings.Join(keep, "\n\n")
+}
+
+// partialPool: a host with two pooled connections loses one of them for good (the backend stops accepting, the other
+// connection stays up). The host is still healthy: an idempotent request whose other hosts all answer with a retryable
+// error must succeed on it ("succeeds whenever some host in its plan answers successfully").
+func partialPool(c *Ctx, idx int, hosts int) {
+	r := c.R
+	scenario := map[string]interface{}{"kind": "partial-pool", "idx": idx, "hosts": hosts}
+	c.Step("partial-pool idx=%d hosts=%d", idx, hosts)
+	bed, err := px.NewBed(px.BedConfig{Hosts: hosts, NumConns: 2, Keyspaces: []string{"ks1"}, ReconnectBase: 5 * time.Millisecond, ReconnectMax: 20 * time.Millisecond, ConnectTimeout: 500 * time.Millisecond})
+	if err != nil {
+		r.Inconc("partial-pool: cannot start bed: " + err.Error())
+		return
+	}
+	defer bed.Close()
+	healthy := 1 + idx%hosts
+	bed.Cluster.SetScript(func(a *fakecass.Arrival) fakecass.Outcome {
+		if a.Host != healthy {
+			return OutcomeFor(model.Overloaded, a.Token, a.Header.Version)
+		}
+		return fakecass.Rows()
+	})
+	cl, err := bed.ReadyClient(primitive.ProtocolVersion4, "")
+	if err != nil {
+		r.Inconc("partial-pool: handshake: " + err.Error())
+		return
+	}
+	defer cl.Close()
+	var pooled []*fakecass.Conn
+	for _, x := range bed.Cluster.Hosts[healthy-1].Conns() {
+		if !x.IsRegistered() {
+			pooled = append(pooled, x)
+		}
+	}
+	if len(pooled) != 2 {
+		r.Inconc(fmt.Sprintf("partial-pool: expected 2 pooled connections, found %d", len(pooled)))
+		return
+	}
+	// which of the two is slot 0 is unknown from outside: the case index picks the older or the newer connection
+	victim := pooled[(idx/hosts)%2]
+	if (pooled[0].ID > pooled[1].ID) != ((idx/hosts)%2 == 1) {
+		victim = pooled[1-(idx/hosts)%2]
+	}
+	bed.Cluster.Hosts[healthy-1].StopListener() // the lost connection cannot be replaced
+	before := len(bed.Policy.Calls.Snapshot())
+	victim.Kill(false)
+	// the proxy has noticed and failed at least one reconnect of that slot
+	waitFor(func() bool {
+		n := 0
+		for _, pc := range bed.Policy.Calls.Snapshot()[before:] {
+			if pc.Kind == "delay" {
+				n++
+			}
+		}
+		return n >= 4
+	}, 5*time.Second)
+	bad := 0
+	var sample ReplyInfo
+	for k := 0; k < 12; k++ {
+		tok := NewTok()
+		f, err := cl.CallF(BuildRequest(primitive.ProtocolVersion4, int16(k+1), KQuery, true, tok, primitive.ConsistencyLevelQuorum), 10*time.Second)
+		r.Eval(1)
+		if err != nil {
+			bad++
+			continue
+		}
+		ri := replyInfo(f)
+		if !(ri.Kind == "Rows" && ri.Tok == tok && ri.Echo.Host == healthy) {
+			bad++
+			sample = ri
+		}
+	}
+	r.Obs("partial_pool_cases", 1)
+	r.NonTrivial(fmt.Sprintf("partial-pool/h%d/healthy=%d/victim=%d", hosts, healthy, (idx/hosts)%2))
+	if bad > 0 {
+		r.Violate(mon.Violation{Signature: "C05/healthy-host-skipped/one-of-two-connections-down", Detail: fmt.Sprintf("host %d has one of its two pooled connections down (it cannot be re-established) and one up; every other host answers Overloaded: %d of 12 idempotent requests were not answered by host %d (e.g. %s %q)", healthy, bad, healthy, sample.Kind, sample.ErrMsg), Scenario: scenario})
+	}
 }
